@@ -103,7 +103,9 @@ var docFamilies = []docFamily{
 	{"long-keys", func(n int) []byte {
 		return []byte("{" + strings.Repeat(`"`+strings.Repeat("k", 50)+`":1,`, n) + `"z":0}`)
 	}, wide},
-	{"array-of-small-objects", func(n int) []byte { return []byte("[" + strings.Repeat(`{"id":1,"name":"x","tags":["a","b"]},`, n) + "{}]") }, wide},
+	{"array-of-small-objects", func(n int) []byte {
+		return []byte("[" + strings.Repeat(`{"id":1,"name":"x","tags":["a","b"]},`, n) + "{}]")
+	}, wide},
 	{"growing-siblings", func(n int) []byte {
 		var sb strings.Builder
 		sb.WriteString("[")
@@ -113,7 +115,9 @@ var docFamilies = []docFamily{
 		sb.WriteString("[]]")
 		return []byte(sb.String())
 	}, wide},
-	{"long-number-literals", func(n int) []byte { return []byte("[" + strings.Repeat(strings.Repeat("7", 700)+".5e-690,", n/20) + "0]") }, wide},
+	{"long-number-literals", func(n int) []byte {
+		return []byte("[" + strings.Repeat(strings.Repeat("7", 700)+".5e-690,", n/20) + "0]")
+	}, wide},
 	{"whitespace-heavy", func(n int) []byte { return []byte("[" + strings.Repeat(" \n\t 1 \r\n , ", 4*n) + "2 ]") }, wide},
 }
 
@@ -154,12 +158,21 @@ type entryPoint struct {
 }
 
 var c20Entries = []entryPoint{
-	{"ReadValue", func(d []byte, buf *rjson.Buffer, vr *rjson.ValueReader) error { _, _, e := rjson.ReadValue(d); return e }},
+	{"ReadValue", func(d []byte, buf *rjson.Buffer, vr *rjson.ValueReader) error {
+		_, _, e := rjson.ReadValue(d)
+		return e
+	}},
 	{"ValueReader(reused).ReadValue", func(d []byte, buf *rjson.Buffer, vr *rjson.ValueReader) error { _, _, e := vr.ReadValue(d); return e }},
 	{"Valid(nil)", func(d []byte, buf *rjson.Buffer, vr *rjson.ValueReader) error { rjson.Valid(d, nil); return nil }},
 	{"Valid(reused buffer)", func(d []byte, buf *rjson.Buffer, vr *rjson.ValueReader) error { rjson.Valid(d, buf); return nil }},
-	{"SkipValue(nil)", func(d []byte, buf *rjson.Buffer, vr *rjson.ValueReader) error { _, e := rjson.SkipValue(d, nil); return e }},
-	{"SkipValueFast(nil)", func(d []byte, buf *rjson.Buffer, vr *rjson.ValueReader) error { _, e := rjson.SkipValueFast(d, nil); return e }},
+	{"SkipValue(nil)", func(d []byte, buf *rjson.Buffer, vr *rjson.ValueReader) error {
+		_, e := rjson.SkipValue(d, nil)
+		return e
+	}},
+	{"SkipValueFast(nil)", func(d []byte, buf *rjson.Buffer, vr *rjson.ValueReader) error {
+		_, e := rjson.SkipValueFast(d, nil)
+		return e
+	}},
 	{"HandleArrayValues/HandleObjectValues(declining handler)", func(d []byte, buf *rjson.Buffer, vr *rjson.ValueReader) error {
 		if len(d) > 0 && d[0] == '{' {
 			_, e := rjson.HandleObjectValues(d, nopObjectHandler{}, nil)
@@ -181,11 +194,11 @@ var c20Entries = []entryPoint{
 
 // thresholds (explicit judgement calls about "a fixed constant multiple")
 const (
-	growthLimit      = 2.5     // bytes-per-input-byte at 4n must be below growthLimit x the figure at n
+	growthLimit      = 2.5       // bytes-per-input-byte at 4n must be below growthLimit x the figure at n
 	growthMinBytes   = 256 << 10 // only families allocating at least this much at 4n are judged by growth
-	absPerByte       = 16384   // absolute sanity cap per input byte ...
-	absPerCall       = 1 << 20 // ... plus this per call
-	histPerByte      = 64      // history: each small call may allocate histPerByte x len + histPerCall
+	absPerByte       = 16384     // absolute sanity cap per input byte ...
+	absPerCall       = 1 << 20   // ... plus this per call
+	histPerByte      = 64        // history: each small call may allocate histPerByte x len + histPerCall
 	histPerCall      = 8 << 10
 	histSettleFactor = 2 // the first calls after a big document may together cost up to this x alloc(big)
 )
